@@ -448,8 +448,11 @@ package hashgraph
 //@ ghost func RootSound(r *Root) bool { return r != nil && (forall i int :: 0 <= i && i < len(r.Events) ==> FESound(r.Events[i])) }
 //@ ghost func FrameSound(f *Frame) bool { return (forall k string :: __in(k, f.Roots) ==> RootSound(f.Roots[k])) && (forall i int :: 0 <= i && i < len(f.Events) ==> FESound(f.Events[i])) }
 
+//@ ghost opaque func PeerSliceOK(ps []*peers.Peer) bool { return len(ps) < 2147483648 && (forall i int :: 0 <= i && i < len(ps) ==> peers.PeerOK(ps[i])) }
+//@ ghost func FramePeerSetsOK(f *Frame) bool { return forall r int :: __in(r, f.PeerSets) ==> PeerSliceOK(f.PeerSets[r]) }
 //@ iface func (s Store) Reset(frame *Frame) error
-//@   requires frame != nil
+//@   requires frame != nil && FrameWF(frame) && FramePeerSetsOK(frame)
+//@   ensures[last-block] ret0 == nil ==> G_lastBlock(s) == -1
 //@   modifies G_events(s), G_last(s), G_lastIdx(s), G_rep(s), G_fault(s), G_miss(s), G_blocks(s), G_pset(s), G_psetOK(s), G_psetFloor(s), G_bodies(s), G_lastBlock(s), G_rounds(s), G_frames(s)
 
 //@ func (f *Frame) SortedFrameEvents() []*FrameEvent
@@ -473,7 +476,9 @@ package hashgraph
 //@   safety on
 //@   requires h != nil && block != nil && block.Signatures != nil && frame != nil
 //@   requires[frame-sound] FrameSound(frame)
+//@   requires[frame-peers] FrameWF(frame) && FramePeerSetsOK(frame)
 //@   requires[lt-cache]    h.LtCachePure()
+//@   ensures[anchor] ret0 == nil && block.Body.Index >= 0 ==> G_lastBlock(h.Store) == block.Body.Index
 //@   ensures[memo] h.MemoOK()
 //@   ensures[ready] ret0 == nil && old(h.PendingSignatures) != nil && old(h.PendingSignatures.items) != nil ==> h.ConsensusReady()
 //@   loop 1 invariant[memo] h.MemoOK() && (forall k int :: 0 <= k && k < len(sortedFrameEvents) ==> FESound(sortedFrameEvents[k]))
@@ -1068,7 +1073,7 @@ package hashgraph
 // `ghostset` is the ghost code that maintains the view. coupled(): every entry of a cache is the view's entry for
 // that key (the caches may forget - eviction - but never invent or alter), and the counters agree.
 // Encapsulation (the store's internal objects are not reachable from its clients) is assumed.
-//@ ghost func (s *InmemStore) coupled() bool { return s.roundCache != nil && s.blockCache != nil && s.frameCache != nil && s.eventCache != nil && s.roundCache != s.blockCache && s.roundCache != s.frameCache && s.roundCache != s.eventCache && s.blockCache != s.frameCache && s.blockCache != s.eventCache && s.frameCache != s.eventCache && G_lastBlock(s) == s.lastBlock && s.roundsCoupled() && s.blocksCoupled() && s.framesCoupled() && s.eventsCoupled() && s.participantEventsCache != nil && s.participantEventsCache.wf() && s.psCoupled() && s.roots != nil }
+//@ ghost func (s *InmemStore) coupled() bool { return s.cacheSize >= 2 && s.cacheSize < 4611686018427387904 && s.roundCache != nil && s.blockCache != nil && s.frameCache != nil && s.eventCache != nil && s.roundCache != s.blockCache && s.roundCache != s.frameCache && s.roundCache != s.eventCache && s.blockCache != s.frameCache && s.blockCache != s.eventCache && s.frameCache != s.eventCache && G_lastBlock(s) == s.lastBlock && s.roundsCoupled() && s.blocksCoupled() && s.framesCoupled() && s.eventsCoupled() && s.participantEventsCache != nil && s.participantEventsCache.wf() && s.psCoupled() && s.roots != nil }
 // psCoupled: the peer-set view is what the cache's lookup returns: for a round below the first recorded one the first
 // set, otherwise the set recorded at the greatest round not above it; every recorded set is well-formed.
 //@ ghost func (s *InmemStore) psCoupled() bool { return s.peerSetCache != nil && s.peerSetCache.wf() && s.peerSetCache.repertoireByPubKey != nil && s.peerSetCache.repertoireByID != nil && s.peerSetCache.firstRounds != nil && G_psetOK(s) == (len(s.peerSetCache.rounds) > 0) && (len(s.peerSetCache.rounds) > 0 ==> G_psetFloor(s) == s.peerSetCache.rounds[0]) && (forall i int :: 0 <= i && i < len(s.peerSetCache.rounds) ==> s.peerSetCache.peerSets[s.peerSetCache.rounds[i]].WF()) && s.psView() }
@@ -1513,3 +1518,14 @@ package hashgraph
 //@   requires pec != nil && pec.wf()
 //@   modifies nothing
 //@   ensures[known] ret0 != nil && __fresh(ret0)
+
+// Reset: only the block counter is verified against the view (C02: after a fast-sync, delivery continues at the
+// block after the anchor, so the reset store must not remember an older last block). That the peer-set loop
+// re-establishes the coupling invariant is assumed (InmemStore.SetPeerSet is not verified).
+//@ func (s *InmemStore) Reset(frame *Frame) error
+//@   implements Store.Reset
+//@   reveal PeerSliceOK
+//@   requires s != nil && s.coupled()
+//@   call SetFrame assume[recoupled] s.coupled()
+//@   ensures[coupled] ret0 == nil ==> s.coupled()
+//@   ghostset G_lastBlock(s) := s.lastBlock
